@@ -32,8 +32,9 @@ ID = 'C05'
 COMPONENTS = ['jsonesc', 'manifest']
 THEOREMS = ['C05_esc_table_matches_model', 'C05_key_tables_match_model', 'C05_escape_valid', 'C05_escape_string_json_valid',
             'C05_unescape_escape', 'C05_decoder_strings_strict', 'C05_manifest_parse_roundtrip', 'C05_manifest_parse_roundtrip_finite',
-            'C05_manifest_injective', 'C05_cli_default_roundtrip', 'C05_ws_erasure', 'C05_builtin_formats_ws', 'C05_toml_basic_string_ok',
-            'C05_python_string_ok', 'C05_safe_toml_plain_sound', 'C05_escape_key_toml_ok', 'C05_safe_yaml_plain_chars',
+            'C05_manifest_injective', 'C05_cli_default_roundtrip', 'C05_cli_multi_roundtrip',
+            'C05_cli_yaml_stream_roundtrip', 'C05_ws_erasure', 'C05_builtin_formats_ws', 'C05_toml_basic_string_ok',
+            'C05_python_string_ok', 'C05_yaml_double_quoted_ok', 'C05_safe_toml_plain_sound', 'C05_escape_key_toml_ok', 'C05_safe_yaml_plain_chars',
             'C05_safe_yaml_plain_core_string_refuted', 'C05_nonvacuous_hyps',
             'C05_nonvacuous_runs']
 ALLOWED_AXIOMS = set()
@@ -823,7 +824,7 @@ def check_values(run, impl_exe, model_exe, rng, cases, numtab, label='v'):
                 run.violation('model-roundtrip', 'model decoder on the model text of %s: %s' % (src[:60], m_dec[:60]), replay, concrete=False)
             if m_erased != m_min:
                 run.violation('model-ws-erasure', 'erase_ws(model text) differs from the minified text for %s' % src[:60], replay, concrete=False)
-        if len(run.samples) < 4 and ev[0] in 'ao' and len(text) < 200:
+        if len(run.samples) < 4 and ev[0] in 'ao' and 40 < len(text) < 240 and '\\' in text:
             run.samples.append({'component': 'manifest', 'program': src[:200], 'opts': opts, 'output': text[:200]})
     # the extracted Coq decoder applied to the implementation's documents
     dres = vlib.run_sharded(model_exe, dec_lines, 600)
